@@ -133,6 +133,10 @@ def check(item, tier):
             prior = torch.tensor([list(prior_opt)], dtype=torch.float64)
         wv = [w * (1 + (s % 2)) for s in range(S)] if per_state_w else [w] * S
         ew = torch.tensor(wv, dtype=torch.float64) if per_state_w else float(w)
+        if not per_state_w and (cfg + prior_i + force_i) % 3 == 2:
+            # a scalar weight handed over as a 0-dimensional tensor / a numpy scalar instead of a Python float
+            ew = torch.tensor(float(w), dtype=torch.float64) if cfg % 2 else np.float32(w)
+            wv = [float(ew)] * S
         force = bool(force_i)
         if rshape_i == 0 and cfg % 3 == 0:
             rf = rf[:, :, :1].copy()       # (s, a) rewards handed over in the broadcastable S x A x 1 shape
